@@ -544,3 +544,541 @@ class CoveredAliasStep:
         hit = shares_a_key(merge.key, merge.mask, key, mask)
         return (implies(hit, seq_len(result) == 1 and select(result, 0) == (key, mask))
                 and implies(not hit, seq_len(result) == 0))
+
+
+# ---- ordered covering: the composition of the two checks (_refine_merge) ------------------------------------------------------
+# A merge is SAFE to apply when (D) no original entry standing behind an entry at or below the insertion point shares a key with
+# the merged entry (down-check) and (U) no entry between a member and the insertion point shares a key with that member
+# (up-check).  Both checks shrink the merge; the up-check changes key, mask and insertion point, which can invalidate (D) - this
+# is why _refine_merge has to run the down-check again after an up-check that changed something.  The two predicates are
+# uninterpreted here (their meaning is fixed by the contracts of the two checks: UpcheckMember / CoveredAliasStep and the bounded
+# layer); what is proved is the composition.
+from pyvc.speclib import uf, ite   # noqa: E402
+
+MERGE_ID = TRec("_Merge", ident=TInt(), goodness=TInt())
+
+
+def down_ok(m):
+    return uf("down_ok", m.ident) == 1
+
+
+def up_ok(m):
+    return uf("up_ok", m.ident) == 1
+
+
+def sub_merge(a, b):
+    """the members of a are members of b"""
+    return uf("sub_merge", a.ident, b.ident) == 1
+
+
+def _downcheck_ext(E, args, kwargs, st, node):
+    s = st.copy()
+    n = sum(1 for t in s.trace.items if t[0] == "downcheck")
+    s.trace = _ListV(s.trace.items + (("downcheck", args[0], args[1], kwargs.get("min_goodness", args[2] if len(args) > 2 else None)),))
+    return [(s, st.env["g_d%d" % n])]
+
+
+def _upcheck_ext(E, args, kwargs, st, node):
+    s = st.copy()
+    s.trace = _ListV(s.trace.items + (("upcheck", args[0], args[1]),))
+    return [(s, (st.env["g_u"], st.env["g_changed"]))]
+
+
+@contract("rig/routing_table/ordered_covering.py::_refine_merge")
+class RefineMerge:
+    """whatever _refine_merge returns with a goodness above the bar has passed BOTH checks in its final form"""
+    properties = ("C04", "C01")
+    params = dict(merge=MERGE_ID, aliases=TInt(), min_goodness=TInt(),
+                  g_d0=MERGE_ID, g_u=MERGE_ID, g_changed=TBool(), g_d1=MERGE_ID)
+    result = MERGE_ID
+    externals = {"def:_refine_downcheck": _downcheck_ext, "def:_refine_upcheck": _upcheck_ext}
+    assumptions = ["assumed contracts of the two checks (their loop bodies are under contract as fragments, their loops bounded): "
+                   "_refine_downcheck(m) returns a sub-merge that passes the down-check or has goodness <= min_goodness, and keeps "
+                   "the up-check property of its argument (removing members lowers generality and insertion point); _refine_upcheck(m) "
+                   "returns a sub-merge that passes the up-check or has goodness <= min_goodness, and says whether it removed anything"]
+
+    def native(merge):
+        raise __import__("pyvc.replay", fromlist=["OutsideHarness"]).OutsideHarness()
+
+    def requires(merge, min_goodness, g_d0, g_u, g_changed, g_d1):
+        return (   # first down-check, on the merge given
+                (g_d0.goodness <= min_goodness or down_ok(g_d0))
+                # up-check, on the result of the first down-check
+                and (g_u.goodness <= min_goodness or up_ok(g_u))
+                and implies(not g_changed, g_u.ident == g_d0.ident and g_u.goodness == g_d0.goodness)
+                # second down-check, on the result of the up-check: keeps (U), establishes (D)
+                and (g_d1.goodness <= min_goodness or down_ok(g_d1))
+                and implies(up_ok(g_u), up_ok(g_d1)))
+
+    def ensures_a_merge_above_the_bar_passed_both_checks_in_its_final_form(min_goodness, result):
+        return implies(result.goodness > min_goodness, down_ok(result) and up_ok(result))
+
+    def ensures_each_check_is_given_the_result_of_the_one_before(merge, aliases, min_goodness, g_d0, g_u, g_changed, _trace):
+        return (len(_trace) >= 1 and _trace[0] == ("downcheck", merge, aliases, min_goodness)
+                and implies(len(_trace) >= 2, _trace[1] == ("upcheck", g_d0, min_goodness))
+                and implies(len(_trace) >= 3, _trace[2] == ("downcheck", g_u, aliases, min_goodness)))
+
+
+# ---- ordered covering: the driver loop (ordered_covering) and its caller (minimise) --------------------------------------------
+from pyvc.values import fresh as _fresh   # noqa: E402
+
+TBL = TRec("Table", ident=TInt(), n=TInt(0, None))
+ALI = TRec("Aliases", ident=TInt())
+MERGE_OC = TRec("_Merge", ident=TInt(), goodness=TInt())
+
+
+def _tbl_len(E, args, kwargs, st, node):
+    return [(st, args[0].fields["n"])]
+
+
+def _oc_dict(E, args, kwargs, st, node):
+    s = st.copy()
+    s.trace = _ListV(s.trace.items + (("dict", args[0]),))
+    return [(s, st.env["g_aliases0"])]
+
+
+def _oc_sorted(E, args, kwargs, st, node):
+    """sorted(table, key=f): the key function is applied to the ghost entry g_probe and the value is recorded - so that the
+    contract can say WHICH key the table is listed by"""
+    out = []
+    if set(kwargs) - {"key"} or len(args) != 1:
+        raise __import__("pyvc.values", fromlist=["EngineError"]).EngineError("sorted() with other options")
+    for s2, kv in E.call(kwargs["key"], [st.env["g_probe"]], {}, st, node):
+        s3 = s2.copy()
+        s3.trace = _ListV(s3.trace.items + (("sorted", args[0], kv),))
+        out.append((s3, st.env["g_sorted"]))
+    return out
+
+
+def best_goodness(table, aliases):
+    """goodness of the merge _get_best_merge proposes for this table with these aliases"""
+    return uf("best_goodness", table.ident, aliases.ident)
+
+
+def _best_merge_ext(E, args, kwargs, st, node):
+    m, facts = _fresh(MERGE_OC, "merge")
+    s = st.assume(*facts)
+    s = s.assume(uf_term("best_goodness", args[0].fields["ident"], args[1].fields["ident"]) == m.fields["goodness"],
+                 uf_term("bm_table", m.fields["ident"]) == args[0].fields["ident"],
+                 uf_term("bm_len", m.fields["ident"]) == args[0].fields["n"],
+                 uf_term("bm_aliases", m.fields["ident"]) == args[1].fields["ident"])
+    return [(s, m)]
+
+
+def _apply_ext(E, obj, args, kwargs, st, node):
+    """merge.apply(aliases) (contract of _Merge.apply): a table of (length of the merge's table) - goodness entries, never empty"""
+    t, f1 = _fresh(TBL, "applied")
+    a, f2 = _fresh(ALI, "new_aliases")
+    s = st.assume(*(f1 + f2))
+    s = s.assume(t.fields["n"] >= 1,
+                 uf_term("ap_merge", t.fields["ident"]) == obj.fields["ident"],
+                 uf_term("ap_aliases", t.fields["ident"]) == args[0].fields["ident"],
+                 uf_term("ap_new_aliases", t.fields["ident"]) == a.fields["ident"],
+                 t.fields["n"] == uf_term("bm_len", obj.fields["ident"]) - obj.fields["goodness"])
+    return [(s, (t, a), None)]
+
+
+def uf_term(name, *terms):
+    return z3.Function("uf_" + name, *([z3.IntSort()] * (len(terms) + 1)))(*[t if z3.is_expr(t) else z3.IntVal(t) for t in terms])
+
+
+def built_by_best_merges(table, aliases, start_table, start_aliases):
+    """(table, aliases) is (start_table, start_aliases) or was produced by applying, to a pair built this way, the merge that
+    _get_best_merge proposed for exactly that pair, with exactly those aliases"""
+    return ((table.ident == start_table.ident and aliases.ident == start_aliases.ident)
+            or (uf("ap_new_aliases", table.ident) == aliases.ident
+                and uf("bm_aliases", uf("ap_merge", table.ident)) == uf("ap_aliases", table.ident)))
+
+
+@contract("rig/routing_table/ordered_covering.py::ordered_covering")
+class OrderedCoveringLoop:
+    """the driver: the table is listed by generality first (the insertion index of every merge relies on it), the caller's
+    aliases are copied, and then - while the target is not met - the merge proposed for the CURRENT table and aliases is
+    applied with the CURRENT aliases; it stops only when the target is met or no merge of positive goodness is left, and
+    fails only if asked to and the target was not met"""
+    properties = ("C04", "C01")
+    params = dict(routing_table=TBL, target_length=TOpt(TInt(0, None)), aliases=ALI, no_raise=TBool(),
+                  g_sorted=TBL, g_aliases0=ALI, g_probe=KM)
+    modular = ("rig/routing_table/ordered_covering.py::_get_generality",)
+    externals = {"len": _tbl_len, "dict": _oc_dict, "sorted": _oc_sorted, "def:_get_best_merge": _best_merge_ext, "_Merge.apply": _apply_ext}
+    raises = {"MinimisationFailedError": None}
+    loop_headers = {0: "while target_length is None or len(routing_table) > target_length:"}
+    options = {"var_shapes": {"merge": MERGE_OC}}
+    assumptions = ["tables, alias dictionaries and merges are opaque here: _get_best_merge(table, aliases) returns a merge (its goodness "
+                   "is a function of the pair), _Merge.apply(aliases) returns a new table of at least one entry and new aliases "
+                   "(contracts of their own: RefineMerge / BestMergeStep / MergeApply*); sorted() and dict() return new objects"]
+
+    def native(routing_table):
+        raise __import__("pyvc.replay", fromlist=["OutsideHarness"]).OutsideHarness()
+
+    def requires(routing_table, g_sorted):
+        return g_sorted.n == routing_table.n
+
+    def inv_0_built_by_applying_the_proposed_merges(routing_table, aliases, g_sorted, g_aliases0):
+        return built_by_best_merges(routing_table, aliases, g_sorted, g_aliases0)
+
+    def inv_0_length(routing_table):
+        return routing_table.n >= 0
+
+    ghost_asserts = {"routing_table, aliases = merge.apply(aliases)": ["ghost_the_merge_applied_was_proposed_for_the_current_table_and_aliases"]}
+
+    def ghost_the_merge_applied_was_proposed_for_the_current_table_and_aliases(iter_routing_table, iter_aliases, merge, routing_table, aliases):
+        return (uf("bm_table", merge.ident) == iter_routing_table.ident and uf("bm_aliases", merge.ident) == iter_aliases.ident
+                and uf("ap_merge", routing_table.ident) == merge.ident and uf("ap_aliases", routing_table.ident) == iter_aliases.ident
+                and uf("ap_new_aliases", routing_table.ident) == aliases.ident)
+
+    def variant_0(routing_table):
+        return routing_table.n
+
+    def raises_MinimisationFailedError(no_raise, target_length, local_routing_table, exc_args):
+        return (not no_raise and target_length is not None and local_routing_table.n > unopt(target_length)
+                and exc_args == (unopt(target_length), local_routing_table.n))
+
+    def ensures_stops_only_when_the_target_is_met_or_nothing_can_be_merged(target_length, result):
+        return ((target_length is not None and result[0].n <= unopt(target_length))
+                or best_goodness(result[0], result[1]) <= 0)
+
+    def ensures_result_built_by_applying_the_proposed_merges(g_sorted, g_aliases0, result):
+        return built_by_best_merges(result[0], result[1], g_sorted, g_aliases0)
+
+
+@contract("rig/routing_table/ordered_covering.py::ordered_covering@seq:0:2")
+class OrderedCoveringPrologue:
+    """the two statements before the loop: the caller's alias dictionary is copied (never used directly), and the table is
+    listed by GENERALITY - the key function, applied to an arbitrary entry, is the number of X bits of its key/mask"""
+    properties = ("C04", "C01")
+    params = dict(routing_table=TBL, aliases=ALI, g_sorted=TBL, g_aliases0=ALI, g_probe=KM)
+    fragment_result = ("routing_table", "aliases")
+    fragment_head = "aliases = dict(aliases)"
+    modular = ("rig/routing_table/ordered_covering.py::_get_generality",)
+    externals = {"dict": _oc_dict, "sorted": _oc_sorted}
+
+    def native(routing_table):
+        raise __import__("pyvc.replay", fromlist=["OutsideHarness"]).OutsideHarness()
+
+    def ensures_listed_by_generality_and_aliases_copied(routing_table, aliases, g_probe, g_sorted, g_aliases0, result, _trace):
+        return (len(_trace) == 2 and _trace[0] == ("dict", aliases)
+                and _trace[1] == ("sorted", routing_table, gen(g_probe.key, g_probe.mask))
+                and result[0] == g_sorted and result[1] == g_aliases0)
+
+
+# ---- ordered covering: choosing the merge (_get_best_merge, one candidate) ---------------------------------------------------------
+def _refine_ext(E, args, kwargs, st, node):
+    s = st.copy()
+    a = list(args) + [None] * (3 - len(args))
+    s.trace = _ListV(s.trace.items + (("refine", a[0], kwargs.get("aliases", a[1]), kwargs.get("min_goodness", a[2])),))
+    return [(s, st.env["g_refined"])]
+
+
+def best_so_far_is_safe(best_merge, best_goodness):
+    """nothing chosen yet (the empty merge, bar at 0), or a merge that passed both checks and whose goodness is the bar"""
+    return ((best_goodness == 0 and best_merge.goodness <= 0)
+            or (best_goodness > 0 and best_merge.goodness == best_goodness and down_ok(best_merge) and up_ok(best_merge)))
+
+
+@contract("rig/routing_table/ordered_covering.py::_get_best_merge@forbody:0")
+class BestMergeStep:
+    """one candidate: it is refined against the CURRENT bar with the aliases given, and replaces the best merge so far only if
+    its refined form is strictly better - so the merge returned is the empty one or one that passed both checks"""
+    properties = ("C04", "C01")
+    params = dict(merge=MERGE_ID, best_merge=MERGE_ID, best_goodness=TInt(0, None), aliases=TInt(), g_refined=MERGE_ID)
+    fragment_result = ("best_merge", "best_goodness")
+    fragment_head = "for merge in _get_all_merges(routing_table):"
+    externals = {"def:_refine_merge": _refine_ext}
+    assumptions = ["_refine_merge is used by its contract (RefineMerge): a result above the bar passed both checks"]
+
+    def native(merge):
+        raise __import__("pyvc.replay", fromlist=["OutsideHarness"]).OutsideHarness()
+
+    def requires(best_merge, best_goodness, g_refined):
+        return (best_so_far_is_safe(best_merge, best_goodness)
+                and implies(g_refined.goodness > best_goodness, down_ok(g_refined) and up_ok(g_refined)))
+
+    def ensures_the_best_so_far_stays_safe(result):
+        return best_so_far_is_safe(result[0], result[1])
+
+    def ensures_refined_against_the_current_bar_and_taken_only_if_better(merge, best_merge, best_goodness, aliases, g_refined, result, _trace):
+        return (implies(merge.goodness <= best_goodness, len(_trace) == 0 and result == (best_merge, best_goodness))
+                and implies(merge.goodness > best_goodness,
+                            len(_trace) == 1 and _trace[0] == ("refine", merge, aliases, best_goodness)
+                            and result == ite(g_refined.goodness > best_goodness, (g_refined, g_refined.goodness), (best_merge, best_goodness))))
+
+
+# ---- ordered covering: the entry point (minimise) -------------------------------------------------------------------------------------
+def _oc_ext(E, args, kwargs, st, node):
+    s = st.copy()
+    a = list(args) + [None] * (2 - len(args))
+    s.trace = _ListV(s.trace.items + (("ordered_covering", a[0], kwargs.get("target_length", a[1]), tuple(sorted((k, v) for k, v in kwargs.items() if k != "target_length"))),))
+    return [(s, (st.env["g_table"], st.env["g_aliases"]))]
+
+
+def _rdr_ext(E, args, kwargs, st, node):
+    """remove_default_routes.minimise (contract RemoveDefaultRoutes): recorded with the value of check_for_aliases it runs with"""
+    from pyvc.engine import Raised
+    s = st.copy()
+    a = list(args) + [None] * (2 - len(args))
+    chk = kwargs.get("check_for_aliases", args[2] if len(args) > 2 else True)
+    s.trace = _ListV(s.trace.items + (("remove_default_routes", a[0], kwargs.get("target_length", a[1]), chk),))
+    ok = s.assume(z3.Not(st.env["g_fail"]))
+    bad = s.assume(st.env["g_fail"])
+    return [(ok, st.env["g_out"]), (bad, Raised(_ExcV("MinimisationFailedError", (a[1], 0))))]
+
+
+@contract("rig/routing_table/ordered_covering.py::minimise")
+class OrderedCoveringMinimise:
+    """the entry point: ordered covering (never failing by itself), then default-route removal WITH its alias check on the
+    merged table - merged entries overlap, so an entry may only be left to default routing when nothing below it matches"""
+    properties = ("C04", "C01")
+    params = dict(routing_table=TBL, target_length=TOpt(TInt(0, None)), g_table=TBL, g_aliases=ALI, g_out=TBL, g_fail=TBool())
+    result = TBL
+    externals = {"def:ordered_covering": _oc_ext, "def:minimise": _rdr_ext}
+    raises = {"MinimisationFailedError": None}
+    assumptions = ["ordered_covering and remove_default_routes.minimise are used by their contracts (OrderedCoveringLoop, RemoveDefaultRoutes)"]
+
+    def native(routing_table):
+        raise __import__("pyvc.replay", fromlist=["OutsideHarness"]).OutsideHarness()
+
+    def raises_MinimisationFailedError(g_fail):
+        return g_fail
+
+    def ensures_covering_then_default_route_removal_with_the_alias_check(routing_table, target_length, g_table, g_out, result, _trace):
+        return (len(_trace) == 2 and _trace[0] == ("ordered_covering", routing_table, target_length, (("no_raise", True),))
+                and _trace[1] == ("remove_default_routes", g_table, target_length, True)
+                and result == g_out)
+
+
+# ---- ordered covering: applying a merge (_Merge.apply), one entry of the old table (fragment) -----------------------------------------
+MERGE_AP = TRec("_Merge", entries=_TSet(TInt()), insertion_index=TInt(0, None))
+ENTRY_ID = TRec("RoutingTableEntry", ident=TInt(), key=KEY, mask=KEY)
+
+
+def _rec_setitem(E, obj, args, kwargs, st, node):
+    s = st.copy()
+    s.trace = _ListV(s.trace.items + (("store", args[0], args[1]),))
+    return [(s, _NONE, None)]
+
+
+def _aliases_pop(E, obj, args, kwargs, st, node):
+    """aliases.pop(km, default): recorded with the key and whether the default is exactly the one-element set {km}"""
+    from pyvc.values import LitSet
+    d = args[1] if len(args) > 1 else None
+    dflt_is_km = isinstance(d, LitSet) and len(d.items) == 1 and d.conds is None and d.items[0] is args[0]
+    s = st.copy()
+    s.trace = _ListV(s.trace.items + (("pop", args[0], dflt_is_km),))
+    return [(s, st.env["g_popped"], None)]
+
+
+def _aliasset_update(E, obj, args, kwargs, st, node):
+    s = st.copy()
+    s.trace = _ListV(s.trace.items + (("update", args[0]),))
+    return [(s, _NONE, None)]
+
+
+@contract("rig/routing_table/ordered_covering.py::_Merge.apply@forbody:0")
+class MergeApplyStep:
+    """one entry of the old table: the merged entry is written first when this is the insertion point; an entry that is not a
+    member is copied to the NEXT free position (so non-members keep their order and nothing is overwritten or skipped); a
+    member is not copied - the originals it stands for (its aliases, or itself) move to the merged entry's aliases"""
+    properties = ("C04", "C01")
+    params = dict(self=MERGE_AP, i=TInt(0, None), entry=ENTRY_ID, new_entry=ENTRY_ID, insert=TInt(0, None),
+                  new_table=TRec("NewTable"), aliases=TRec("AliasDict"), our_aliases=TRec("AliasSet"), g_popped=TRec("AliasSet"))
+    fragment_result = ("insert",)
+    fragment_head = "for i, entry in enumerate(self.routing_table):"
+    externals = {"NewTable.__setitem__": _rec_setitem, "AliasDict.pop": _aliases_pop, "AliasSet.update": _aliasset_update}
+    assumptions = ["the new table, the alias dictionary and the merged entry's alias set are opaque here: their operations are recorded"]
+
+    def native(i):
+        raise __import__("pyvc.replay", fromlist=["OutsideHarness"]).OutsideHarness()
+
+    def ensures_written_in_order_without_gaps(self, i, entry, new_entry, insert, g_popped, result, _trace):
+        at_point = i == self.insertion_index
+        member = i in self.entries
+        k = ite(at_point, 1, 0)
+        return (implies(at_point, len(_trace) >= 1 and _trace[0] == ("store", insert, new_entry))
+                and implies(not member, len(_trace) == k + 1 and _trace[k] == ("store", insert + k, entry) and result[0] == insert + k + 1)
+                and implies(member, len(_trace) == k + 2 and _trace[k] == ("pop", (entry.key, entry.mask), True)
+                            and _trace[k + 1] == ("update", g_popped) and result[0] == insert + k))
+
+
+def _ap_dict(E, args, kwargs, st, node):
+    s = st.copy()
+    s.trace = _ListV(s.trace.items + (("dict", args[0]),))
+    return [(s, st.env["g_copy"])]
+
+
+def _ap_len(E, args, kwargs, st, node):
+    return [(st, args[0].fields["n"])]
+
+
+def _ap_setitem(E, obj, args, kwargs, st, node):
+    from pyvc.values import LitSet, SetV
+    v = args[1]
+    empty = (isinstance(v, LitSet) and len(v.items) == 0) or (isinstance(v, _ListV) and len(v.items) == 0)
+    s = st.copy()
+    s.trace = _ListV(s.trace.items + (("setitem", args[0], "empty-set" if empty else v),))
+    return [(s, _NONE, None)]
+
+
+@contract("rig/routing_table/ordered_covering.py::_Merge.apply@if:1")
+class MergeApplyEpilogue:
+    """after the loop: a merged entry that belongs below every entry of the old table is written at the next free position"""
+    properties = ("C04", "C01")
+    params = dict(self=TRec("_Merge", insertion_index=TInt(0, None), routing_table=TRec("Table", n=TInt(0, None))), insert=TInt(0, None),
+                  new_entry=ENTRY_ID, new_table=TRec("NewTable"))
+    fragment_result = ()
+    fragment_head = "if self.insertion_index == len(self.routing_table):"
+    externals = {"NewTable.__setitem__": _rec_setitem, "len": _ap_len}
+
+    def native(insert):
+        raise __import__("pyvc.replay", fromlist=["OutsideHarness"]).OutsideHarness()
+
+    def ensures_appended_exactly_when_it_belongs_at_the_end(self, insert, new_entry, _trace):
+        return (implies(self.insertion_index == self.routing_table.n, len(_trace) == 1 and _trace[0] == ("store", insert, new_entry))
+                and implies(self.insertion_index != self.routing_table.n, len(_trace) == 0))
+
+
+def _first_member(E, args, kwargs, st, node):
+    """next(iter(entries)): SOME member of the merge (ghost g_member, assumed to be one)"""
+    return [(st, st.env["g_member"])]
+
+
+def _iter_id(E, args, kwargs, st, node):
+    return [(st, args[0])]
+
+
+def _table_getitem(E, obj, args, kwargs, st, node):
+    s = st.copy()
+    s.trace = _ListV(s.trace.items + (("entry", args[0]),))
+    return [(s, st.env["g_entry"], None)]
+
+
+@contract("rig/routing_table/ordered_covering.py::_Merge.apply@seq:2:3")
+class MergeApplyPrologue:
+    """before the loop: the caller's alias dictionary is copied; the merged entry carries the route of a MEMBER of the merge
+    and the merge's own key, mask and sources; and it starts with an empty alias set of its own under its (key, mask)"""
+    properties = ("C04", "C01")
+    params = dict(self=TRec("_Merge", routing_table=TRec("Table"), entries=TRec("Entries"), key=KEY, mask=KEY, sources=TSmallSet([None] + ROUTES)),
+                  aliases=TRec("AliasDict0"), g_copy=TRec("AliasDict"), g_member=TInt(0, None), g_entry=ENTRY)
+    options = {"int_class": "rig/routing_table/entries.py::Routes"}
+    fragment_result = ("new_entry",)
+    fragment_head = "aliases = dict(aliases)"
+    externals = {"dict": _ap_dict, "iter": _iter_id, "next": _first_member, "Table.__getitem__": _table_getitem, "AliasDict.__setitem__": _ap_setitem}
+    assumptions = ["next(iter(entries)) is some member of the merge (ghost), table[i] is recorded and returns a ghost entry"]
+
+    def native(aliases):
+        raise __import__("pyvc.replay", fromlist=["OutsideHarness"]).OutsideHarness()
+
+    def ensures_merged_entry_has_a_members_route_and_the_merges_key_mask_sources(self, aliases, g_member, g_entry, result, _trace):
+        ne = result[0]
+        return (len(_trace) == 3 and _trace[0] == ("dict", aliases) and _trace[1] == ("entry", g_member)
+                and _trace[2] == ("setitem", (self.key, self.mask), "empty-set")
+                and ne.route == g_entry.route and ne.key == self.key and ne.mask == self.mask and ne.sources == self.sources)
+
+
+# ---- ordered covering: the skeleton of the down-check (_refine_downcheck) ----------------------------------------------------------
+# The CHOICE of the members to remove (two loops over sets of (bit, value) pairs) is a heuristic: which members go does not matter
+# for correctness, only that the loop ends with a merge whose covered list - recomputed from the CURRENT merge in every turn - is
+# empty, or with the empty merge.  The two choice loops are abstracted (their results arbitrary); what is proved is the skeleton.
+MERGE_DC = TRec("_Merge", ident=TInt(), goodness=TInt(), routing_table=TInt(), entries=TInt())
+
+
+def covered_count(merge, aliases):
+    """number of (key, mask) pairs the down-check finds covered for this merge with these aliases"""
+    return uf("covered_count", merge.ident, aliases)
+
+
+def _covered_ext(E, args, kwargs, st, node):
+    """list(_get_covered_keys_and_masks(merge, aliases)) (its loop step is under contract: CoveredAliasStep): a sequence whose
+    length is a function of the merge and the aliases given"""
+    cov, facts = _fresh(TSeq(TTuple(KEY, KEY)), "covered")
+    s = st.assume(*facts)
+    s = s.assume(to_int(cov.length) == uf_term("covered_count", args[0].fields["ident"], args[1]))
+    return [(s, cov)]
+
+
+def to_int(t):
+    return t if z3.is_expr(t) else z3.IntVal(t)
+
+
+def _dc_new_merge(E, args, kwargs, st, node):
+    """_Merge(table, entries): a new merge (fresh identity); built from the empty set its goodness is -1"""
+    from pyvc.values import LitSet
+    m, facts = _fresh(MERGE_DC, "newmerge")
+    s = st.assume(*facts)
+    s = s.assume(m.fields["routing_table"] == args[0])
+    if len(args) > 1 and isinstance(args[1], LitSet) and len(args[1].items) == 0:
+        s = s.assume(m.fields["goodness"] == -1, uf_term("is_empty_merge", m.fields["ident"]) == 1)
+    return [(s, m)]
+
+
+def _dc_setsub(E, obj, args, kwargs, st, node):
+    return [(st, z3.Int(__import__("pyvc.values", fromlist=["fresh_name"]).fresh_name("entries_left")), None)]
+
+
+@contract("rig/routing_table/ordered_covering.py::_refine_downcheck")
+class DowncheckSkeleton:
+    """whatever members the heuristic removes: the merge returned is the empty merge, or a merge for which the covered list -
+    recomputed from that very merge and the aliases given - was found empty"""
+    properties = ("C04", "C01")
+    params = dict(merge=MERGE_DC, aliases=TInt(), min_goodness=TInt())
+    result = MERGE_DC
+    externals = {"def:_get_covered_keys_and_masks": _covered_ext, "class:_Merge": _dc_new_merge}
+    loop_headers = {0: "while merge.goodness > min_goodness:"}
+    abstracted = {"for (key, mask) in covered:": {"most_stringent": TInt(0, 33), "bits_and_vals": TInt()},
+                  "for (bit, val) in sorted(bits_and_vals, reverse=True):": {"remove": TInt()}}
+    options = {"var_shapes": {"merge": MERGE_DC}}
+    assumptions = ["sets of table indices are opaque integers here (entries - remove is some set); _Merge(table, entries) returns a new merge "
+                   "on the same table, of goodness -1 when built from the empty set; the covered list is a function of (merge, aliases)"]
+
+    def native(merge):
+        raise __import__("pyvc.replay", fromlist=["OutsideHarness"]).OutsideHarness()
+
+    def inv_0_same_table(merge, old_merge):
+        return merge.routing_table == old_merge.routing_table
+
+    def ensures_nothing_below_is_covered_or_the_merge_is_empty(aliases, result):
+        return covered_count(result, aliases) == 0 or uf("is_empty_merge", result.ident) == 1
+
+    def ensures_on_the_same_table(merge, result):
+        return result.routing_table == merge.routing_table
+
+
+# ---- ordered covering: why removing members from a merge can only move its insertion point up the table ---------------------------------
+def _popcount_x(key, mask):
+    return sum((1 if ((~key & ~mask) & (1 << i)) != 0 else 0) for i in range(32))
+
+
+@lemma("adding_a_member_only_widens_the_merged_entry")
+class MergeMaskMonotone:
+    """folding one more member into the accumulators of _Merge.__new__ can only clear bits of the merged mask (and the merged key
+    stays inside the mask): a merge of fewer members has a mask that contains the mask of the larger merge"""
+    properties = ("C04", "C01")
+    bv = 40
+    params = dict(any_ones=KEY, all_ones=KEY, all_selected=KEY, key=KEY, mask=KEY)
+
+    def assuming(any_ones, all_ones, all_selected, key, mask):
+        # (at least one member has been folded already: every bit set in all of them is set in some of them)
+        return well_formed(key, mask) and (all_ones & ~any_ones) == 0
+
+    def claim(any_ones, all_ones, all_selected, key, mask):
+        m1 = all_selected & (any_ones ^ ~all_ones)
+        a2, o2, s2 = any_ones | key, all_ones & key, all_selected & mask
+        m2 = s2 & (a2 ^ ~o2)
+        return (m2 & ~m1) == 0 and ((o2 & m2) & ~m2) == 0
+
+
+@lemma("a_narrower_mask_is_at_least_as_general")
+class GeneralityMonotone:
+    """for entries whose key lies inside their mask (every merged entry), a mask with fewer bits has at least as many Xs: so the
+    merge of fewer members is at most as general, and _get_insertion_index (InsertionIndex: first position of equal or greater
+    generality in a table listed by generality) places it at or above the place of the larger merge - which is why a member
+    that passed the up-check still passes it after other members were removed"""
+    properties = ("C04", "C01")
+    bv = 40
+    params = dict(k1=KEY, m1=KEY, k2=KEY, m2=KEY)
+
+    def assuming(k1, m1, k2, m2):
+        return well_formed(k1, m1) and well_formed(k2, m2) and (m2 & ~m1) == 0
+
+    def claim(k1, m1, k2, m2):
+        return _popcount_x(k2, m2) >= _popcount_x(k1, m1)
